@@ -651,6 +651,10 @@ pub fn child_exec(request: &str) -> Result<String, String> {
     let v: serde_json::Value = serde_json::from_str(request).map_err(|e| e.to_string())?;
     let ops: Vec<WOp> = serde_json::from_value(v["ops"].clone()).map_err(|e| e.to_string())?;
     let order: Vec<usize> = serde_json::from_value(v["order"].clone()).map_err(|e| e.to_string())?;
+    let threads = v["threads"].as_u64().unwrap_or(0) as usize;
+    if threads > 0 {
+        return child_exec_cold(&ops, threads, v["stagger"].as_bool().unwrap_or(false));
+    }
     let p_prep = aff_c::<G1m>(&G1m::gen()).prepare();
     let q_prep = aff_c::<G2m>(&G2m::gen()).prepare();
     // note: preparing the generators is itself library work that precedes the operations; it is the same
@@ -663,6 +667,120 @@ pub fn child_exec(request: &str) -> Result<String, String> {
         out.insert(i.to_string(), serde_json::Value::String(bytes.iter().map(|b| format!("{:02x}", b)).collect()));
     }
     Ok(serde_json::Value::Object(out).to_string())
+}
+
+/// cold start: the FIRST library work of the process is done by `t` barrier-released threads at once (each runs
+/// the whole list, all in the same order or staggered by the thread index); prints {"<thread>": {"<op>": hex}}
+fn child_exec_cold(ops: &[WOp], t: usize, stagger: bool) -> Result<String, String> {
+    let barrier = std::sync::Barrier::new(t);
+    let results: Vec<Result<Vec<(usize, Vec<u8>)>, String>> = std::thread::scope(|s| {
+        let hs: Vec<_> = (0..t)
+            .map(|ti| {
+                let barrier = &barrier;
+                s.spawn(move || {
+                    // model-side values first (no crate code), then the barrier, then crate work only
+                    let (g1, g2) = (G1m::gen(), G2m::gen());
+                    barrier.wait();
+                    let p_prep = aff_c::<G1m>(&g1).prepare();
+                    let q_prep = aff_c::<G2m>(&g2).prepare();
+                    let sh = Shared { wb1: None, wb2: None, p_prep: &p_prep, q_prep: &q_prep };
+                    let mut lo = Local::new(&sh);
+                    let n = ops.len();
+                    let mut r = vec![];
+                    for j in 0..n {
+                        let i = if stagger { (j + ti) % n } else { j };
+                        r.push((i, exec(&ops[i], &sh, &mut lo).map_err(|e| format!("thread {} operation #{}: {}", ti, i, e))?));
+                    }
+                    Ok(r)
+                })
+            })
+            .collect();
+        hs.into_iter().map(|h| h.join().unwrap_or_else(|_| Err("worker thread panicked outside a crate call".to_string()))).collect()
+    });
+    let mut out = serde_json::Map::new();
+    for (ti, r) in results.into_iter().enumerate() {
+        let mut m = serde_json::Map::new();
+        for (i, bytes) in r? {
+            m.insert(i.to_string(), serde_json::Value::String(bytes.iter().map(|b| format!("{:02x}", b)).collect()));
+        }
+        out.insert(ti.to_string(), serde_json::Value::Object(m));
+    }
+    Ok(serde_json::Value::Object(out).to_string())
+}
+
+#[derive(Clone, Debug, Serialize, Deserialize, PartialEq, Eq, Hash)]
+pub struct ColdCase {
+    pub ops: Vec<WOp>,
+    pub threads: u8,
+    pub stagger: bool,
+}
+
+fn cold_strategy() -> BoxedStrategy<ColdCase> {
+    // half of the operations are generator multiplications (the classic owner of a lazily built fixed-base table),
+    // through every path; most cases use many threads
+    let gp = || prop_oneof![3 => Just(PointR::Gen), 1 => Just(PointR::Neg(Box::new(PointR::Gen)))];
+    let op = prop_oneof![
+        1 => lite_op(),
+        1 => (0u8..2, gp(), scalar_strategy(), 0u8..5).prop_map(|(g, p, k, path)| WOp::Mul(g, p, k, path)),
+    ];
+    (proptest::collection::vec(op, 1..4), prop_oneof![1 => 2u8..8, 3 => 8u8..17], prop_oneof![3 => Just(false), 1 => Just(true)])
+        .prop_map(|(ops, threads, stagger)| ColdCase { ops, threads, stagger })
+        .boxed()
+}
+
+fn check_cold(c: &ColdCase, info: &mut Info) -> Result<(), String> {
+    use std::io::Write;
+    // sequential in-process reference (this process is warm: whatever is lazily built exists already)
+    let p_prep = aff_c::<G1m>(&G1m::gen()).prepare();
+    let q_prep = aff_c::<G2m>(&G2m::gen()).prepare();
+    let sh = Shared { wb1: None, wb2: None, p_prep: &p_prep, q_prep: &q_prep };
+    let mut lo = Local::new(&sh);
+    let mut reference = vec![];
+    for op in &c.ops {
+        let b = exec(op, &sh, &mut lo)?;
+        reference.push(b.iter().map(|x| format!("{:02x}", x)).collect::<String>());
+    }
+    let exe = std::env::current_exe().map_err(|e| format!("harness: current_exe: {}", e))?;
+    let mut child = std::process::Command::new(exe)
+        .arg("child-exec")
+        .stdin(std::process::Stdio::piped())
+        .stdout(std::process::Stdio::piped())
+        .stderr(std::process::Stdio::null())
+        .spawn()
+        .map_err(|e| format!("harness: cannot spawn child: {}", e))?;
+    let req = serde_json::json!({"ops": c.ops, "order": [], "threads": c.threads, "stagger": c.stagger}).to_string();
+    child.stdin.take().unwrap().write_all(req.as_bytes()).map_err(|e| format!("harness: child stdin: {}", e))?;
+    let outp = child.wait_with_output().map_err(|e| format!("harness: child wait: {}", e))?;
+    let text = String::from_utf8_lossy(&outp.stdout).to_string();
+    if !outp.status.success() {
+        return Err(format!("in a fresh process whose first library work is done by {} threads at once: {}", c.threads, text.trim()));
+    }
+    let v: serde_json::Value = serde_json::from_str(text.trim()).map_err(|e| format!("harness: child output: {} ({})", e, text))?;
+    let per_thread = v.as_object().ok_or("harness: child output not an object")?;
+    if per_thread.len() != c.threads as usize {
+        return Err(format!("harness: child reported {} threads, expected {}", per_thread.len(), c.threads));
+    }
+    for (ti, m) in per_thread {
+        for (k, val) in m.as_object().ok_or("harness: child thread output not an object")? {
+            let i = k.parse::<usize>().map_err(|e| format!("harness: child output key: {}", e))?;
+            if val.as_str().unwrap_or("") != reference[i] {
+                return Err(format!(
+                    "operation #{} ({:?}) returns different bits on thread {} of a fresh process whose first library work is done by {} threads at once than sequentially in the long-lived checking process",
+                    i, c.ops[i], ti, c.threads
+                ));
+            }
+        }
+    }
+    if c.ops.iter().any(|o| matches!(o, WOp::Mul(_, PointR::Gen, _, _))) {
+        info.class("generator-multiplication-at-cold-start");
+    }
+    if let Some(WOp::Mul(_, PointR::Gen, _, path)) = c.ops.first() {
+        info.class(format!("first-op-generator-multiplication-path{}", path % 5));
+    }
+    info.class(format!("threads={}", if c.threads >= 8 { ">=8" } else { "<8" }));
+    info.class(format!("ops={} stagger={}", c.ops.len(), c.stagger));
+    info.nt();
+    Ok(())
 }
 
 fn run_child(ops: &[WOp], order: &[usize]) -> Result<Vec<(usize, String)>, String> {
@@ -989,6 +1107,7 @@ pub fn def() -> PropDef {
         subs: vec![
             Box::new(Sub { name: "workloads", rule: "sequential == re-ordered sequential == concurrent, bit for bit", quick: 640, thorough: 6000, strategy: || boxed(workload_strategy()), check: check_workload }),
             Box::new(Sub { name: "fresh-process-orders", rule: "2..5 pool-free operations on generator-derived points (+-G multiplications through every path, decoding of +-G, serialization, group operations, pairing of +-generators, hashing, field operations) executed in two FRESH child processes in two different orders and in the long-lived checking process: every operation must return the same bits (exposes lazily initialised process-wide state that captures its first caller)", quick: 40, thorough: 1200, strategy: || boxed(proc_strategy()), check: check_proc }),
+            Box::new(Sub { name: "fresh-process-cold-start", rule: "1..3 pool-free operations executed as the very FIRST library work of a fresh child process by 2..16 barrier-released threads at once (same order on every thread, or staggered): every thread's results must equal, bit for bit, the sequential results of the long-lived (warm) checking process (exposes races in the one-time initialisation of lazily built process-wide state, which no warm process can see)", quick: 240, thorough: 4000, strategy: || boxed(cold_strategy()), check: check_cold }),
             Box::new(crate::engine::EnumSub { name: "long-histories", rule: "one worker thread sends N distinct arguments (X_0 + i G) through one operation (pairing with distinct G2 / G1 arguments, checked decoding, subgroup test, hashing, wNAF multiplication, prepare + Miller loop), N = 2300 / 4400 (quick) and 9000 / 70000 (thorough), then evaluates the first 24, the last 24 and every (N/40)-th argument again, forwards and backwards: same bits as the first time (a bounded cache that misbehaves once full, flushed or wrapped)", run: run_long, replay: replay_long, exhaustive: false }),
             Box::new(crate::engine::EnumSub { name: "two-input-bursts", rule: super::longhist::BURST_RULE, run: run_all_two_input_bursts, replay: super::longhist::replay_burst, exhaustive: false }),
             Box::new(Sub { name: "bursts", rule: "4..16 barrier-released threads each repeat a list of 2..4 operations (G1/G2 prepare of a few shared points, pairings, multiplications, hashing, field and group operations) 24..96 times from different starting offsets; every single result must be bit-identical to the sequential reference (exposes check-then-use races on process-wide state, which need call density)", quick: 48, thorough: 1500, strategy: || boxed(burst_strategy()), check: check_burst }),
